@@ -399,7 +399,8 @@ func (l *c12Log) handler(hold time.Duration) dns.HandlerFunc {
 			rt.Error = dns.RcodeBadTime
 			rt.OtherLen = 6
 			rt.OtherData = fmt.Sprintf("%012x", now)
-			r.Rcode = dns.RcodeNotAuth
+			// (the RCODE stays NOERROR: for a NOTAUTH reply the client library gives up with ErrAuth
+			// before it looks at the MAC, and the MAC is what this is about)
 		}
 		rw.WriteMsg(r)
 	}
@@ -790,7 +791,8 @@ func c12CrossTalk(w *core.W, j int) {
 			}
 		}
 	}()
-	var tsigReplyErrs atomic.Int64
+	var tsigReplyErrs, staleVerified, staleOther atomic.Int64
+	var firstStaleErr atomic.Value
 	var firstTsigErr atomic.Value
 	signedKeys := map[string]bool{}
 	staleKeys := map[string]bool{}
@@ -880,7 +882,14 @@ func c12CrossTalk(w *core.W, j int) {
 					continue
 				}
 				if err != nil || rep == nil {
+					if signing && s%5 == 3 && err != nil {
+						firstStaleErr.CompareAndSwap(nil, err.Error())
+						staleOther.Add(1)
+					}
 					continue // loss/timeouts are legal: the request stays open
+				}
+				if signing && s%5 == 3 {
+					staleVerified.Add(1)
 				}
 				if signing && rep.IsTsig() != nil {
 					rep.Extra = rep.Extra[:len(rep.Extra)-1]
@@ -947,6 +956,11 @@ func c12CrossTalk(w *core.W, j int) {
 	}
 	w.Count("signed_requests_handled_"+network, nsigned)
 	w.Count("stale_signed_requests_handled_"+network, nstale)
+	w.Count("stale_signed_replies_verified_"+network, int(staleVerified.Load()))
+	w.Count("stale_signed_replies_other_error_"+network, int(staleOther.Load()))
+	if v := firstStaleErr.Load(); v != nil {
+		w.Cover("stale_reply_error", fmt.Sprint(v))
+	}
 	for k, n := range log.handled {
 		s, ok := sentBy[k]
 		if !ok {
